@@ -167,6 +167,11 @@ def refs_proto(pkg, targets, imports, holder="Holder", full_sites=True):
         lines.append(f"  rpc U{label}({fq(q, 'Target' + tag)}) returns ({fq(q, 'Target' + tag + '.Inner')});")
         lines.append(f"  rpc S{label}(stream {fq(q, 'Target' + tag + '.Inner')}) returns (stream {fq(q, 'Target' + tag)});")
     lines.append("  rpc Wkt(.google.protobuf.Empty) returns (.google.protobuf.StringValue);")
+    # the well-known types the Holder ALSO has as fields (where they are unwrapped to datetime / timedelta / Optional[int])
+    # used directly as rpc types: there they must stay the bundled message classes
+    lines.append("  rpc WktTs(.google.protobuf.Timestamp) returns (.google.protobuf.Duration);")
+    lines.append("  rpc WktW(.google.protobuf.Int32Value) returns (.google.protobuf.Timestamp);")
+    lines.append("  rpc WktS(stream .google.protobuf.Duration) returns (stream .google.protobuf.Int32Value);")
     lines.append("}")
     return "\n".join(lines) + "\n", sites
 
@@ -269,6 +274,13 @@ def check_build(b: Build, importer, targets, sites, res: Result, w, rel_of):
     h = mapping.get(f"/{pkgpart}HolderService/Wkt")
     if h is None or h.request_type is not glib.Empty or h.reply_type is not glib.StringValue:
         res.violation("resolve", ["rpc", "wkt", "wrong-class"], f"Wkt rpc types: {getattr(h, 'request_type', None)!r} {getattr(h, 'reply_type', None)!r}", w)
+    for meth, want_req, want_rep in (("WktTs", glib.Timestamp, glib.Duration), ("WktW", glib.Int32Value, glib.Timestamp),
+                                     ("WktS", glib.Duration, glib.Int32Value)):
+        res.counters["sites_checked"] += 2
+        h = mapping.get(f"/{pkgpart}HolderService/{meth}")
+        if h is None or h.request_type is not want_req or h.reply_type is not want_rep:
+            res.violation("resolve", ["rpc", "wkt-also-used-as-field", "wrong-class"],
+                          f"{meth} rpc types: {getattr(h, 'request_type', None)!r} {getattr(h, 'reply_type', None)!r}, expected {want_req!r} {want_rep!r}", w)
 
 
 def rpc_only_proto(r, q):
